@@ -1,7 +1,6 @@
 import enum
 import numpy as np
 from queue import deque
-from itertools import permutations
 
 INTERNET = 0
 
@@ -90,16 +89,36 @@ def get_minimal_hops_to_goal(topology, sensitive_addresses):
         if subnet not in subnets_to_visit:
             subnets_to_visit.append(subnet)
 
-    # find minimum shortest path that visits internet subnet and all
-    # sensitive subnets by checking all possible permutations
-    shortest = max_value
-    for pm in permutations(subnets_to_visit):
-        pm_sum = 0
-        for i in range(len(pm) - 1):
-            pm_sum += distance[pm[i]][pm[i+1]]
-        shortest = min(shortest, pm_sum)
+    # find the size of the smallest tree that connects the internet subnet
+    # and all sensitive subnets (each edge of the tree is one hop, i.e. one
+    # more subnet that has to be traversed). Branches of the tree share their
+    # common path, so this is a minimum Steiner tree (Dreyfus-Wagner) rather
+    # than the shortest walk that visits the subnets one after the other.
+    num_to_visit = len(subnets_to_visit)
+    full_set = (1 << num_to_visit) - 1
+    # tree_size[S][v] = min hops to connect subnets_to_visit in S and subnet v
+    tree_size = np.full((full_set + 1, num_subnets), max_value, dtype=np.int64)
+    for i, subnet in enumerate(subnets_to_visit):
+        tree_size[1 << i] = distance[subnet]
+    for subset in range(1, full_set + 1):
+        if subset & (subset - 1) == 0:
+            # single subnet, already initialized
+            continue
+        for v in range(num_subnets):
+            # merge two smaller trees at subnet v
+            part = (subset - 1) & subset
+            while part > 0:
+                size = tree_size[part][v] + tree_size[subset ^ part][v]
+                if size < tree_size[subset][v]:
+                    tree_size[subset][v] = size
+                part = (part - 1) & subset
+        # extend tree along shortest path to each subnet
+        merged = tree_size[subset].copy()
+        for v in range(num_subnets):
+            tree_size[subset][v] = np.min(merged + distance[:, v])
 
-    return shortest
+    shortest = int(np.min(tree_size[full_set]))
+    return min(shortest, max_value)
 
 
 def min_subnet_depth(topology):
